@@ -479,7 +479,9 @@ def denoteMeta (ρ : Env) (kv : LExpr × LExpr) : Outcome (Int × DMeta) := do
 /-- `⟦P⟧ tx ρ`. -/
 def denote (ρ : Env) : Outcome DTx := do
   let t := ρ.tx
-  let outputs ← mapMO (denoteOutput ρ) t.outputs
+  -- `output? name { … }`: an optional output that carries nothing is left out (the others keep their order)
+  let outs ← mapMO (fun (o : OutputBlock) => do let d ← denoteOutput ρ o; .ok (o.optional, d)) t.outputs
+  let outputs := (outs.filter fun od => !(od.1 && od.2.lovelace == 0 && od.2.tokens.all (·.2 == 0))).map (·.2)
   let minted ← sumAmounts ρ t.mints
   let burned ← sumAmounts ρ t.burns
   let (since, untl) := match t.validity with | some (s, u) => (s, u) | none => (none, none)
